@@ -96,7 +96,9 @@ if _ACTIVE:
 
         def open(self, path, flags, *args, **kwargs):
             real = self._real
-            if not (flags & real.O_CREAT and flags & real.O_EXCL):
+            # every creating open is observed, whatever its other flags (a
+            # create without O_EXCL is exactly what must not go unnoticed)
+            if not flags & real.O_CREAT:
                 return real.open(path, flags, *args, **kwargs)
             spath = _os.fspath(path)
             _pause("before_create", spath)
@@ -109,7 +111,8 @@ if _ACTIVE:
                 _op("create_failed", spath, errno=err.errno)
                 raise
             self._fds[fd] = spath
-            _op("created", spath, fd=fd)
+            _op("created", spath, fd=fd, excl=bool(flags & real.O_EXCL),
+                trunc=bool(flags & real.O_TRUNC))
             _pause("after_create", spath)
             return fd
 
